@@ -477,6 +477,20 @@ func V2() map[string]*runtimev2.Fn {
 	}
 	// pmulti(v...) returns all its arguments as separate values.
 	multi := []*runtimev2.Param{{Name: "vals", Variable: true}}
+	// ppoll() is a host function that itself asks whether the run has been told to stop (a long-running builtin would)
+	// and returns the answer.
+	fns["ppoll"] = &runtimev2.Fn{
+		CallCheck: chk(none),
+		Call: func(ctx *runtimev2.Task, e *ast.CallExpr) *errchain.PlError {
+			stop := ctx.ProcExit()
+			if t := trace2(ctx); t != nil {
+				t.add(Rec{Label: "ppoll", Vals: []string{Render(stop)}})
+			}
+			ctx.Regs.ReturnAppend(runtimev2.V{V: stop, T: ast.Bool})
+			return nil
+		},
+		Desc: runtimev2.FnDesc{Name: "ppoll", Params: none},
+	}
 	// pmode() returns a number the harness chooses per run: the same loaded script takes another path the next time.
 	fns["pmode"] = &runtimev2.Fn{
 		CallCheck: chk(none),
